@@ -203,7 +203,7 @@ def rule_r3(ctx):
             n += 1
             var = norm(a.targets[0])
             blk = getattr(a, "_parent", None)
-            body = blk.body if hasattr(blk, "body") and a in blk.body else []
+            body = next((b for b in (getattr(blk, fld, None) for fld in ("body", "orelse", "finalbody")) if isinstance(b, list) and a in b), [])
             i = body.index(a) if a in body else -1
             nxt = body[i + 1] if 0 <= i < len(body) - 1 else None
             ok = isinstance(nxt, ast.Try) and any(
@@ -276,20 +276,71 @@ def rule_r4(ctx):
         ups = callers.get(e.key, [])
         ctx.require(bool(ups), f"{e.local}: no call site found")
         for g, c in ups:
+            if repo.transparent_callers(g) is not None:
+                # a private helper that only exists as a part of its callers (sa/inline.py): the same call is examined there
+                continue
             ok, why = protected(g, c)
             ctx.check("R4", f"{g.local} → {e.name}(…): tensor lock held on every call path", ok, g, c,
                       f"a tensor can be evaluated without self._tensor_write_locks[id(tensor)] ({why}): the same tensor "
                       "object shared by two initializers is materialised by two workers at once",
                       how="call-graph walk upward until a `with self._tensor_write_locks[id(tensor)]` encloses the call")
-    # the lock is keyed by the tensor that is written
-    w = repo.func(f"{ED}:_ExternalDataWriter._write_tensor")
-    withs = [n for n in own_nodes(w.node) if isinstance(n, ast.With)]
-    ok = len(withs) == 1 and norm(withs[0].items[0].context_expr) == f"self._tensor_write_locks[id({w.params[1]})]"
-    if ok:
-        inner = [c for c in ast.walk(withs[0]) if isinstance(c, ast.Call) and dotted_of(c.func) == "_write_tensor_with_budget_at"]
-        ok = len(inner) == 1 and norm(inner[0].args[0]) == w.params[1]
-    ctx.check("R4", "_write_tensor locks on the identity of the tensor it writes", ok, w, w.node,
-              "the per-tensor lock is keyed by something other than the written tensor", how="lock key id(tensor) ↔ first argument of the write")
+    # the lock is keyed by the tensor that is written: inside every `with <locks>[id(X)]` each call that evaluates a tensor
+    # (an evaluator, or a function handing one of its parameters to an evaluator) is given X as that tensor
+    pos: dict[str, int] = {}
+    for e in _evaluators(ctx):
+        for c in calls_in(e):
+            if isinstance(c.func, ast.Attribute) and c.func.attr in ("tofile", "tobytes", "numpy") and isinstance(c.func.value, ast.Name) \
+                    and c.func.value.id in e.params:
+                pos.setdefault(e.key, e.params.index(c.func.value.id))
+    for _ in range(4):
+        for f in mod.all_funcs:
+            if f.key in pos:
+                continue
+            for c in calls_in(f):
+                tg, _st = ty.callees(f, c)
+                for g in tg:
+                    if g.key in pos:
+                        a = _arg_at(c, g, pos[g.key])
+                        if isinstance(a, ast.Name) and a.id in f.params:
+                            pos.setdefault(f.key, f.params.index(a.id))
+    n_with = n_inner = 0
+    for f in mod.all_funcs:
+        for wn in (n for n in own_nodes(f.node) if isinstance(n, ast.With)):
+            key = None
+            for it in wn.items:
+                t = norm(it.context_expr)
+                if "_tensor_write_locks[id(" in t and t.endswith(")]"):
+                    key = t[t.index("[id(") + 4:-2]
+            if key is None:
+                continue
+            n_with += 1
+            bad = None
+            for c in (c for st in wn.body for c in ast.walk(st) if isinstance(c, ast.Call)):
+                tg, _st = ty.callees(f, c)
+                for g in tg:
+                    if g.key in pos:
+                        n_inner += 1
+                        a = _arg_at(c, g, pos[g.key])
+                        if a is None or norm(a) != key:
+                            bad = c
+            ctx.check("R4", f"{f.local}: the lock taken on id({key}) covers writes of {key} only", bad is None, f, bad if bad is not None else wn,
+                      "the per-tensor lock is keyed by something other than the written tensor",
+                      how="lock key id(X) ↔ tensor argument of every evaluating call inside the with block")
+    ctx.require(n_with >= 1 and n_inner >= 1, "no `with <tensor locks>[id(tensor)]` block around an evaluating call found")
+
+
+def _arg_at(call: ast.Call, g: FuncInfo, index: int):
+    """The argument expression bound to parameter `index` of g at this call (bound methods: self is implicit)."""
+    params = g.params
+    name = params[index] if index < len(params) else None
+    for kw in call.keywords:
+        if kw.arg == name:
+            return kw.value
+    shift = 1 if (g.cls is not None and g.kind == "method" and isinstance(call.func, ast.Attribute)) else 0
+    i = index - shift
+    if 0 <= i < len(call.args) and not any(isinstance(a, ast.Starred) for a in call.args[: i + 1]):
+        return call.args[i]
+    return None
 
 
 def rule_r5(ctx):
@@ -320,8 +371,15 @@ def rule_r5(ctx):
                 for a in alts:
                     if isinstance(a, ast.Constant) and a.value is None:
                         continue
+                    wrap = None
                     if isinstance(a, ast.Call) and isinstance(a.func, ast.Name) and a.func.id in host.nested:
                         wrap = host.nested[a.func.id]
+                    elif isinstance(a, ast.Call):
+                        # a factory defined elsewhere in the module (the lock is then one of its arguments)
+                        tg, _st = ctx.typer.callees(host, a)
+                        if len(tg) == 1 and tg[0].module is mod:
+                            wrap = tg[0]
+                    if wrap is not None:
                         inner = list(wrap.nested.values())
                         good = False
                         for w in inner:
